@@ -159,7 +159,7 @@ def run(ck, facts, tier):
                     else:
                         ck.violation(R, "xform(%s,%s)" % (a, b), xf.where(ms[0]["arms"][arms[0][0]]["ln"]), "gives %s, composition requires %s" % (got, want))
     if iv:
-        ms = enum_matches(iv.thir, VAR)
+        ms = enum_matches(facts.thir(iv.key), VAR)
         if len(ms) != 1:
             ck.violation(R, "invert:match", iv.where(), "expected one match")
         else:
@@ -393,7 +393,7 @@ def run(ck, facts, tier):
         b = need_body(ck, facts, R, key)
         if not b:
             continue
-        ms = enum_matches(b.thir, "chalk_ir::GoalData")
+        ms = enum_matches(facts.thir(b.key), "chalk_ir::GoalData")
         if len(ms) != 1:
             ck.violation(R, "%s:match" % short(key), b.where(), "expected one match on GoalData")
             continue
